@@ -158,6 +158,11 @@ def staged_genf():
     return gen
 
 
+# a default that is falsy but not None: an explicit null in the input still has to win over it
+FALSY_DEFAULTS = {"int": "0", "float": "0.0", "bool": "False", "str": "''", "H1": "H1(0)", "decimal.Decimal": "decimal.Decimal('0')",
+                  "datetime.timedelta": "datetime.timedelta(0)", "bytes": "b''", "IE": "None", "E1": "None"}
+
+
 def class_source(texpr, dialect="default", fields="xy"):
     d = DIALECTS[dialect]
     src = [PRELUDE, "@dataclass", "class C(DataClassDictMixin):"]
@@ -165,6 +170,8 @@ def class_source(texpr, dialect="default", fields="xy"):
         src.append(f"    x: {texpr}")
     if "y" in fields and "Final[" not in texpr:
         src.append(f"    y: Optional[{texpr}] = None")
+    if "y" in fields and FALSY_DEFAULTS.get(texpr, "None") != "None":
+        src.append(f"    z: Optional[{texpr}] = {FALSY_DEFAULTS[texpr]}")
     if d["cfg"]:
         src += ["    class Config(BaseConfig):", "        class dialect(Dialect):", f"            {d['cfg']}"]
     return "\n".join(src) + "\n"
